@@ -241,7 +241,9 @@ def pairs_convection(ctx, rng, idx):
     a = float(rng.choice([1.0, -1.0, 0.0, rng.uniform(-5, 5), 10 ** rng.uniform(-3, 3) * rng.choice([-1, 1])]))
     L, R = _pairs_scalar(rng, 400)
     ctx.describe(model="convection", convcoef=a, L=L[:6], R=R[:6], npairs=400)
-    conv.model(a).numflux(None, [L], [R])
+    model = conv.model(a)
+    gen.maybe_decoy(rng)
+    model.numflux(None, [L], [R])
     ctx.nontrivial("conv", a, L[:4], R[:4])
 
 
@@ -266,7 +268,9 @@ def pairs_sw(ctx, rng, idx):
     hR[7 * k:8 * k] = hL[7 * k:8 * k]
     uL, uR = mL * np.sqrt(g * hL), mR * np.sqrt(g * hR)
     ctx.describe(model="shallowwater", g=g, flux=flux, hL=hL[:5], uL=uL[:5], hR=hR[:5], uR=uR[:5], npairs=n, huge_ratio=big)
-    shw.shallowwater1d(g=g).numflux(flux, [hL, uL], [hR, uR])
+    model = shw.shallowwater1d(g=g)
+    gen.maybe_decoy(rng)
+    model.numflux(flux, [hL, uL], [hR, uR])
     ctx.nontrivial("sw", flux, g, hL[:4], uL[:4])
 
 
@@ -284,6 +288,7 @@ def pairs_euler1d(ctx, rng, idx):
     rR[7 * k:8 * k], pR[7 * k:8 * k] = rL[7 * k:8 * k], pL[7 * k:8 * k]
     uL, uR = mL * np.sqrt(gam * pL / rL), mR * np.sqrt(gam * pR / rR)
     model = euler.euler1d(gamma=gam) if idx % 2 else euler.nozzle(lambda x: 1 + 0 * x, gamma=gam)
+    gen.maybe_decoy(rng, 0.5)
     ctx.describe(model=type(model).__name__, gamma=gam, flux=flux, L=[rL[:4], uL[:4], pL[:4]], R=[rR[:4], uR[:4], pR[:4]], npairs=n, huge_ratio=big)
     model.numflux(flux, [rL, uL, pL], [rR, uR, pR])
     ctx.nontrivial("euler1d", flux, gam, rL[:4], uL[:4])
@@ -309,7 +314,9 @@ def pairs_euler2d(ctx, rng, idx):
     VL = np.where(dirx, np.vstack([mL * cL, tL * cL]), np.vstack([tL * cL, mL * cL]))
     VR = np.where(dirx, np.vstack([mR * cR, tR * cR]), np.vstack([tR * cR, mR * cR]))
     ctx.describe(model="euler2d", gamma=gam, flux=flux, L=[rL[:3], VL[:, :3], pL[:3]], R=[rR[:3], VR[:, :3], pR[:3]], dir=nrm[:, :3], npairs=n)
-    euler.euler2d(gamma=gam).numflux(flux, [rL, VL, pL], [rR, VR, pR], nrm)
+    model = euler.euler2d(gamma=gam)
+    gen.maybe_decoy(rng, 0.5)
+    model.numflux(flux, [rL, VL, pL], [rR, VR, pR], nrm)
     ctx.nontrivial("euler2d", flux, gam, rL[:4], VL[:, :4])
 
 
